@@ -1,59 +1,128 @@
 #!/usr/bin/env python3
 """
-tools/rs2lean_fn.py — regenerates lean/Yuiv/Gen/BitSeqFn.lean from the SOURCE TEXT of /repo/yui/src/misc/bitseq.rs.
+tools/rs2lean_fn.py — regenerates Lean definitions from the SOURCE TEXT of selected Rust files of /repo.
 
-A small translator for the restricted Rust subset the `Bit` / `BitSeq` methods are written in.  It tokenises the
-file, parses items (enum, struct, impl blocks, consts, fn signatures) and — per function — statements and
-expressions with a recursive-descent / precedence-climbing parser, and emits one Lean definition per function into
-namespace `Yuiv.GenBitSeq`.  Nothing about the function BODIES is hard-coded: only the list of functions that must be
-translatable (REQUIRED) is.
+  fn:bitseq   /repo/yui/src/misc/bitseq.rs                         -> lean/Yuiv/Gen/BitSeqFn.lean   (Props/C17Gen.lean)
+  fn:ratio    /repo/yui/src/types/ratio.rs                         -> lean/Yuiv/Gen/RatioFn.lean    (Props/C14Gen.lean)
+  fn:intext   /repo/yui/src/misc/int_ext.rs + abst/euc_ring.rs     -> lean/Yuiv/Gen/IntExtFn.lean   (Props/C15Gen.lean)
+
+A small translator for a restricted Rust subset.  It tokenises the file, parses items (enum, struct, impl blocks,
+trait default methods, consts, fn signatures, single-arm `macro_rules!`) and — per function — statements and expressions
+with a recursive-descent / precedence-climbing parser, and emits one Lean definition per function.  Nothing about the
+function BODIES is hard-coded: only, per target (TARGETS below), the list of functions that must be translatable.
 
 Supported subset
-  items        `enum` with unit variants, `struct` with named fields, inherent `impl T { const..; fn.. }`,
-               trait impls `impl Trait<..> for T { type X = ..; fn.. }`; generics only in the forms
-               `<T>` (a plain type variable), `where U: From<T>` for a user type U (the conversion becomes an explicit
-               function argument `U_from_T : T → U`, and `U::from(x)` applies it) and `I: IntoIterator<Item = T>`
-               (an iterator is modelled by the `List` of its items; `.into_iter()` is the identity on it)
-  types        u64, usize (both 64 bit), bool, the enum, the struct, (), Ordering, Option<_>, references (erased)
-  statements   `let` / `let mut` (identifier patterns), assignments and compound assignments to `let mut` locals and
-               to fields of `self` (`= += -= *= /= %= &= |= ^= <<= >>=`), `assert!`/`debug_assert!`/`assert_eq!`/
-               `assert_ne!`/`panic!`/`unreachable!`, `if`/`else if`/`else` statements that mutate locals/self,
-               `while` loops (fuel), `for x in <list>` loops (structural recursion over the items), calls of
-               `&mut self` methods on `self` or a mutable local
-  expressions  integer / bool literals, paths (`x`, `self`, `Self::CONST`, `u64::MAX`, `Enum::Variant`), field reads,
-               `Self::f(..)`, `T::f(..)`, `x.f(..)`, unary `! * &`, binary `* / % + - << >> & ^ | == != < <= > >= && ||`
-               with Rust precedence, `as u64|usize`, `if` expressions, `match` on integer/bool/enum literals,
-               struct literals `Self { a, b: e }`, `Some(e)`, `.reverse_bits()`, `.cmp(&e)`, `.then(e)`,
-               `.then_with(|| e)`, `.clone()`
-Semantics emitted (see lean/Yuiv/Model/RustArith.lean — trusted): overflow checks and debug assertions ON; `+ - *`
-panic on overflow, `/ %` on zero divisor, `<< >>` when the amount is >= 64; `assert!` failure panics; every panic is
-`Res.panic`; `&mut self` methods return the new struct value; `&&`/`||`/`then_with` are lazy.  All integer literals
-are taken to be 64-bit unsigned (rustc infers u64/usize for every literal in this file because each flows into a
-u64/usize position; a literal that rustc would default to i32 is outside the subset).
+  items        `enum` with unit variants, `struct` with named fields (type parameters only with scalar = "Z"),
+               inherent `impl T { const..; fn.. }`, trait impls `impl Trait<..> for T { type X = ..; fn.. }` (an impl for
+               `&T` gets the tag suffix `_ref`), blanket impls `impl<T> Trait for T`, default methods of a `trait`,
+               nested `fn` items and `use …::Ordering::*` inside a body; with the target option `macros`: item-level
+               invocations of `macro_rules!` definitions that have ONE arm `($a:frag, $b:frag, …) => { … }` are expanded
+               (token substitution); attributes (`#[inline]`, `#[auto_ops]`, `#[cfg]`) are ignored
+  generics     `<T>` (a plain type variable), `where U: From<T>` for a user type U (an explicit function argument
+               `U_from_T : T → U`; `U::from(x)` applies it), `I: IntoIterator<Item = T>` (the `List` of the items;
+               `.into_iter()` is the identity); with scalar = "Z": a parameter all of whose bounds are ring / integer
+               traits (SCALAR_BOUNDS; `for<'x> &'x T: EucRingOps<T>` included) is INSTANTIATED by the unbounded integers;
+               lifetimes are erased
+  types        u64, usize (both 64 bit; scalar = None), the scalar `Int` (scalar = "Z"), bool, the enums / structs of the
+               file, (), tuples, Ordering, Option<_>, references (erased)
+  statements   `let` / `let mut` with identifier or flat tuple patterns, assignments and compound assignments to
+               `let mut` locals, to fields of `self` and `*self`, tuple assignments `(a, b) = (e1, e2)`, `assert!` family,
+               `panic!`/`unreachable!`, `if`/`else if`/`else`, `while` (fuel), `for x in <list>`, `loop` without `break`
+               as the last expression of a function (fuel), `return` / `continue` (translated in continuation-passing
+               style: the code after an `if`/`match` that may jump is moved into its branches), calls of `&mut self`
+               methods on `self` or a mutable local, `x.add_assign(y)` … / `x.set_zero()` / `x.set_one()`
+  expressions  integer / bool literals, paths (`x`, `self`, `Self::CONST`, `u64::MAX`, `Enum::Variant`, `None`, `Less`…),
+               field reads, `Self::f(..)`, `T::f(..)`, `x.f(..)`, local `f(..)`, unary `! - * &`, binary
+               `* / % + - << >> & ^ | == != < <= > >= && ||` with Rust precedence, `as u64|usize`, `if` expressions,
+               `match` on integer / bool / enum / Ordering values and tuples of them (literal, wildcard and binding
+               patterns; compiled to an if-chain, exhaustiveness checked), struct literals, tuples, `Some(e)`,
+               `.unwrap()`, `.reverse_bits()`, `.cmp(&e)`, `.reverse()`, `.then(e)`, `.then_with(|| e)`, `.clone()`,
+               and with scalar = "Z" the ring methods / associated functions listed in ZMETH / ZSTATIC
+Semantics emitted
+  scalar = None (bitseq): lean/Yuiv/Model/RustArith.lean (trusted): overflow checks and debug assertions ON; `+ - *`
+    panic on overflow, `/ %` on zero divisor, `<< >>` when the amount is >= 64.  All integer literals are taken to be
+    64-bit unsigned (a literal that rustc would default to i32 is outside the subset).
+  scalar = "Z" (ratio, intext): lean/Yuiv/Model/RustRing.lean (trusted): unbounded `Int`; `/ %` truncate and panic on a
+    zero divisor; `EucRing::gcd/lcm` of the integer types are the non-negative gcd / lcm.
+  common: `assert!` failure panics; every panic is `Res.panic`; `&mut self` methods return the new struct value;
+    `&&`/`||`/`then_with` are lazy; shared references are erased to copies (sound because the borrow checker forbids
+    mutation of the referent while the reference is live); `x op= y` on a user type is its `OpAssign` impl; loops run
+    on fuel (`Res.err` when it runs out): the constant `loopFuel`, or — target option `fuel_param` — an explicit first
+    argument `fuel` of every function that (transitively) contains a loop.
 
-Usage: rs2lean_fn.py [--src FILE] [--out FILE]
-Exit status 0: the generated file is up to date or was rewritten; 1: something in a REQUIRED function (or in the item
-structure) is outside the subset — `rs2lean_fn: cannot translate: <what>` is printed and the old file is kept.
+Usage: rs2lean_fn.py [fn:bitseq] [fn:ratio] [fn:intext] [--src FILE]... [--out FILE]      (no target = all targets)
+  `--src` (once per source file of the target, in its order) and `--out` need exactly one target.
+Exit status 0: every selected generated file is up to date or was rewritten; 1: for some target something in a
+REQUIRED function (or in the item structure) is outside the subset — `rs2lean_fn: cannot translate: <what>` is printed
+for that target and its old file is kept (the other targets are still processed).
 """
 import argparse, os, re, sys
 
 ROOT = os.path.dirname(os.path.dirname(os.path.abspath(__file__)))
-SRC = "/repo/yui/src/misc/bitseq.rs"
-OUT = os.path.join(ROOT, "lean", "Yuiv", "Gen", "BitSeqFn.lean")
+GEN = os.path.join(ROOT, "lean", "Yuiv", "Gen")
 
-# functions that must translate (Type, trait-tag or None, name); failure => exit 1
-REQUIRED = [("Bit", None, n) for n in ("is_zero", "is_one", "as_u64")] + \
-           [("BitSeq", None, n) for n in (
-               "mask", "new", "new_rev", "empty", "zeros", "ones", "len", "as_u64", "is_empty", "weight", "set",
-               "set_0", "set_1", "push", "push_0", "push_1", "append", "remove", "insert", "insert_0", "insert_1",
-               "sub", "is_sub")] + \
-           [("Bit", "From_bool", "from"), ("BitSeq", "Index_usize", "index"), ("BitSeq", "Ord", "cmp"),
+
+def _req(ty, names, tag=None):
+    return [(ty, tag, n) for n in names]
+
+
+# One entry per target `fn:<name>`.
+#   required   functions that must translate (Type, trait-tag or None, name); failure => exit 1.  Every other function of
+#              the file is attempted as well; if it is outside the subset the reason is listed in the header of the
+#              generated file and the function is left to the differential run.
+#   scalar     None: the integer types are u64/usize (`Nat` below 2^64, checked operators of Model/RustArith.lean).
+#              "Z": every type parameter whose bounds are ring/integer traits (SCALAR_BOUNDS) is instantiated by the
+#              unbounded integers (`Int`, the BigInt reading; operators and trait methods of Model/RustRing.lean).
+#   macros     expand single-arm `macro_rules!` definitions whose matcher is `$a:frag, $b:frag, …` at item level.
+#   fuel_param functions that contain a `loop`/`while` (or call one that does) take the fuel as an explicit first
+#              argument instead of using the constant `loopFuel`.
+TARGETS = {
+    "bitseq": dict(
+        src="/repo/yui/src/misc/bitseq.rs", out="BitSeqFn.lean", ns="Yuiv.GenBitSeq", scalar=None, macros=False,
+        fuel_param=False, imports=["Yuiv.Model.Res", "Yuiv.Model.RustArith"],
+        blurb=["One Lean definition per translated Rust function (semantics of the primitive operators: Yuiv/Model/RustArith.lean;",
+               "`u64`/`usize` are `Nat` below 2^64, `&mut self` methods return the new struct, panics are `Res.panic`).",
+               "`Yuiv/Props/C17Gen.lean` proves each of them equal to the hand-written model `Yuiv/Model/C17.lean`."],
+        required=_req("Bit", ("is_zero", "is_one", "as_u64")) + _req("BitSeq", (
+            "mask", "new", "new_rev", "empty", "zeros", "ones", "len", "as_u64", "is_empty", "weight", "set",
+            "set_0", "set_1", "push", "push_0", "push_1", "append", "remove", "insert", "insert_0", "insert_1",
+            "sub", "is_sub")) + [
+            ("Bit", "From_bool", "from"), ("BitSeq", "Index_usize", "index"), ("BitSeq", "Ord", "cmp"),
             ("BitSeq", "PartialOrd", "partial_cmp"), ("BitSeq", "AddAssign_BitSeq", "add_assign"),
             ("BitSeq", "AddAssign_Bit", "add_assign"), ("BitSeq", "From_T", "from"),
-            ("BitSeq", "FromIterator_T", "from_iter")]
-# every other function of the file is attempted as well; if it is outside the subset (iter, edit, generate, From<[T; N]>,
-# FromStr, Display, Debug; the macro-generated From<int> impls are never seen because macros are not expanded) the reason
-# is listed in the header of the generated file and the function is left to the differential run.
+            ("BitSeq", "FromIterator_T", "from_iter")]),
+    "ratio": dict(
+        src="/repo/yui/src/types/ratio.rs", out="RatioFn.lean", ns="Yuiv.GenRatio", scalar="Z", macros=True,
+        fuel_param=True, imports=["Yuiv.Model.Res", "Yuiv.Model.RustRing"],
+        blurb=["One Lean definition per translated Rust function.  The type parameter `T` of `Ratio<T>` is instantiated by the",
+               "unbounded integers (`Int`); its operators and trait methods are the functions of Yuiv/Model/RustRing.lean;",
+               "`&mut self` methods return the new struct, panics are `Res.panic`, `loop`s take their fuel as an argument.",
+               "`Yuiv/Props/C14Gen.lean` proves each of them equal to the hand-written model `Yuiv/Model/C14.lean`."],
+        required=_req("Ratio", ("new_raw", "numer", "denom", "new", "reduce", "is_int")) + [
+            ("Ratio", "From_T", "from"), ("Ratio", "Zero", "zero"), ("Ratio", "Zero", "is_zero"),
+            ("Ratio", "One", "one"), ("Ratio", "One", "is_one"),
+            ("Ratio", "AddAssign_Ratio_T", "add_assign"), ("Ratio", "SubAssign_Ratio_T", "sub_assign"),
+            ("Ratio", "Neg", "neg"), ("Ratio", "Neg_ref", "neg"), ("Ratio", "MulAssign_Ratio_T", "mul_assign"),
+            ("Ratio", "DivAssign_Ratio_T", "div_assign"), ("Ratio", "Ring", "inv"), ("Ratio", "Ring", "is_unit"),
+            ("Ratio", "Ring", "normalizing_unit"), ("Ratio", "Ord", "cmp"), ("Ratio", "PartialOrd", "partial_cmp")]),
+    "intext": dict(
+        src=["/repo/yui/src/misc/int_ext.rs", "/repo/yui/src/abst/euc_ring.rs"], out="IntExtFn.lean",
+        ns="Yuiv.GenIntExt", scalar="Z", macros=True, fuel_param=True,
+        scalar_types=["i32", "i64", "i128", "BigInt"],
+        imports=["Yuiv.Model.Res", "Yuiv.Model.RustRing"],
+        blurb=["One Lean definition per translated Rust function.  `Self` of the trait default methods (`EucRing::{divides, gcd,",
+               "gcdx, lcm}`), of the blanket impl `DivRound for T: Integer` and of the `impl_integer!` impls for i32/i64/i128/BigInt is",
+               "read as the unbounded integers (`Int`); operators and the remaining trait methods: Yuiv/Model/RustRing.lean;",
+               "panics are `Res.panic`, `while` loops take their fuel as an argument (`Res.err` when it runs out).",
+               "`Yuiv/Props/C15Gen.lean` proves each of them equal to the hand-written model `Yuiv/Model/C15.lean` at `intOps`."],
+        required=[("DivRound", None, "div_round")] + _req("EucRing", ("divides", "gcd", "gcdx", "lcm")) +
+                 [(t, "Ring", n) for t in ("i32", "i64", "i128", "BigInt") for n in ("inv", "is_unit", "normalizing_unit")]),
+}
+# trait bounds under which a type parameter is read as the ring of integers (target option scalar = "Z")
+SCALAR_BOUNDS = {"EucRing", "EucRingOps", "Integer", "IntOps", "Ring", "RingOps", "One", "Zero", "Clone", "Default",
+                 "Sized", "Copy", "PartialEq", "Eq", "PartialOrd", "Ord", "DivAssign", "RemAssign", "AddAssign",
+                 "SubAssign", "MulAssign", "Signed", "FromPrimitive", "ToPrimitive", "AddMon", "AddGrp", "Mon", "Elem",
+                 "AddMonOps", "AddGrpOps", "MonOps"}
 
 
 class Unsupported(Exception):
@@ -127,10 +196,10 @@ def tokenize(src):
         if c.isdigit():
             m = INT_RE.match(src, i)
             j = m.end()
-            if j < n and src[j] == "." and j + 1 < n and src[j + 1].isdigit():
-                raise Unsupported(f"floating point literal (line {line})")
-            if j < n and (src[j].isalpha() or src[j] == "_"):
-                raise Unsupported(f"literal suffix (line {line})")
+            if (j < n and src[j] == "." and j + 1 < n and src[j + 1].isdigit()) or \
+               (j < n and (src[j].isalpha() or src[j] == "_")):
+                m2 = re.compile(r"[0-9A-Za-z_]*(\.[0-9][0-9A-Za-z_]*)?([eE][+-]?[0-9_]+)?[A-Za-z0-9_]*").match(src, j)
+                toks.append(Tok("float", src[i:m2.end()], line)); i = m2.end(); continue
             txt = m.group(1).replace("_", "")
             toks.append(Tok("int", int(txt, 0) if not txt.startswith("0o") else int(txt[2:], 8), line, m.group(2)))
             i = j
@@ -310,7 +379,7 @@ class Parser:
             self.split_shr()
             if self.eat(">"): break
             if self.peek().kind == "life":
-                reason = reason or f"lifetime parameter {self.next().val}"
+                self.next()                                  # lifetime parameters are erased
                 if self.eat(":"):
                     while self.peek().kind == "life" or self.at("+"): self.next()
             elif self.at("const"):
@@ -337,6 +406,8 @@ class Parser:
             elif self.at("?"):
                 self.next(); out.append("?" + self.ty())
             else:
+                if self.at("for") and self.at("<", 1):
+                    self.next(); self.generic_params()
                 b = self.ty()
                 if self.at("("):
                     s_, e_ = self.skip_balanced()
@@ -344,12 +415,15 @@ class Parser:
                     if self.eat("->"): b += "->" + self.ty()
                 out.append(b)
             if not self.eat("+"): break
+            if self.at("{") or self.at("where") or self.at(",") or self.at(">"): break      # trailing `+`
         return out
 
     def where_clause(self):
         """after `where`: [(type, bound)] up to the opening brace"""
         out = []
         while not self.at("{") and not self.at(";"):
+            if self.at("for") and self.at("<", 1):          # higher-ranked bound `for<'x> &'x T: …` (lifetimes are erased)
+                self.next(); self.generic_params()
             if self.peek().kind == "life":
                 self.next(); self.expect(":")
                 while self.peek().kind == "life" or self.at("+"): self.next()
@@ -362,7 +436,7 @@ class Parser:
     # -- blocks / statements
     def block(self):
         self.expect("{")
-        stmts, tail = [], None
+        stmts, tail, uses, fns = [], None, [], []
         while not self.at("}"):
             if self.peek().kind == "eof": raise Unsupported("unterminated block")
             if self.eat(";"): continue
@@ -370,23 +444,52 @@ class Parser:
                 raise Unsupported(f"attribute inside a function body (line {self.peek().line})")
             if self.at("let"):
                 line = self.next().line
-                mut = self.eat("mut")
-                if self.at("_"):
-                    self.next(); name = "_"
+                pat = None
+                if self.at("("):                              # flat tuple pattern `(a, mut b, _)`
+                    self.next(); pat = []
+                    while not self.at(")"):
+                        m_ = self.eat("mut")
+                        if self.at("_"):
+                            self.next(); pat.append(("_", False))
+                        else:
+                            pat.append((self.ident(), m_))
+                        if self.at("(") or self.at("{") or self.at("::") or self.at("@"):
+                            raise Unsupported(f"`let` with a nested pattern (line {line})")
+                        if not self.eat(","): break
+                    self.expect(")")
+                    name, mut = None, False
                 else:
-                    name = self.ident()
-                if self.at("(") or self.at("{") or self.at("::") or self.at("@") or self.at("|"):
-                    raise Unsupported(f"`let` with a non-identifier pattern (line {line})")
+                    mut = self.eat("mut")
+                    if self.at("_"):
+                        self.next(); name = "_"
+                    else:
+                        name = self.ident()
+                    if self.at("(") or self.at("{") or self.at("::") or self.at("@") or self.at("|"):
+                        raise Unsupported(f"`let` with a non-identifier pattern (line {line})")
                 ty = self.ty() if self.eat(":") else None
                 if not self.eat("="):
                     raise Unsupported(f"`let` without initialiser (line {line})")
                 init = self.expr()
                 if self.at("else"): raise Unsupported(f"`let … else` (line {line})")
                 self.expect(";")
-                stmts.append(N("let", name=name, mut=mut, ty=ty, init=init, line=line))
+                stmts.append(N("let", name=name, mut=mut, ty=ty, init=init, line=line, pat=pat))
                 continue
             t = self.peek()
-            if t.kind == "id" and t.val in ("fn", "use", "struct", "enum", "impl", "const", "static", "type", "mod",
+            if t.kind == "id" and t.val == "use":            # `use a::b::*;` / `use a::b::C;` inside a body
+                self.next(); segs = []
+                while not self.at(";"):
+                    x = self.next()
+                    if x.kind == "eof" or (x.kind == "p" and x.val in "{}"):
+                        raise Unsupported(f"`use` with a brace list inside a function body (line {t.line})")
+                    if x.val != "::": segs.append(str(x.val))
+                self.expect(";")
+                uses.append(segs)
+                continue
+            if t.kind == "id" and t.val == "fn":             # nested fn item
+                self.next()
+                fns.append(parse_fn(self, None, None, {}, [], [], None))
+                continue
+            if t.kind == "id" and t.val in ("struct", "enum", "impl", "const", "static", "type", "mod",
                                             "trait", "macro_rules"):
                 raise Unsupported(f"item `{t.val}` inside a function body (line {t.line})")
             blocklike = (t.kind == "id" and t.val in BLOCKLIKE) or self.at("{")
@@ -400,7 +503,7 @@ class Parser:
             else:
                 raise Unsupported(f"expected `;` or `}}` but found `{self.peek().val}` (line {self.peek().line})")
         self.expect("}")
-        return N("block", stmts=stmts, tail=tail)
+        return N("block", stmts=stmts, tail=tail, uses=uses, fns=fns)
 
     # -- expressions
     def expr(self, minp=0, nostruct=False, stmt=False):
@@ -504,8 +607,8 @@ class Parser:
             if t.suffix and t.suffix not in ("u64", "usize"):
                 raise Unsupported(f"integer literal of type {t.suffix} (line {t.line})")
             return N("int", v=t.val, suffix=t.suffix, line=t.line)
-        if t.kind in ("str", "char"):
-            raise Unsupported(f"string/char literal (line {t.line})")
+        if t.kind in ("str", "char", "float"):
+            raise Unsupported(f"string/char/float literal (line {t.line})")
         if t.kind == "life":
             raise Unsupported(f"loop label (line {t.line})")
         if t.kind == "p":
@@ -513,7 +616,13 @@ class Parser:
                 self.next()
                 if self.eat(")"): return N("unit", line=t.line)
                 e = self.expr()
-                if self.at(","): raise Unsupported(f"tuple expression (line {t.line})")
+                if self.at(","):
+                    es = [e]
+                    while self.eat(","):
+                        if self.at(")"): break
+                        es.append(self.expr())
+                    self.expect(")")
+                    return N("tuple", es=es, line=t.line)
                 self.expect(")")
                 return N("paren", e=e, line=t.line)
             if t.val == "{":
@@ -536,7 +645,7 @@ class Parser:
             el = None
             if self.eat("else"):
                 if self.at("if"):
-                    el = N("block", stmts=[], tail=self.primary(nostruct))
+                    el = N("block", stmts=[], tail=self.primary(nostruct), uses=[], fns=[])
                 else:
                     el = self.block()
             return N("if", c=c, th=th, el=el, line=t.line)
@@ -570,7 +679,22 @@ class Parser:
             self.next()
             it = self.expr(nostruct=True)
             return N("for", var=var, it=it, body=self.block(), line=t.line)
-        if kw in ("loop", "unsafe", "return", "break", "continue", "async", "const", "let", "yield"):
+        if kw == "loop":
+            self.next()
+            return N("loop", body=self.block(), line=t.line)
+        if kw == "return":
+            self.next()
+            e = None
+            if not (self.at(";") or self.at("}") or self.at(",") or self.at(")")):
+                e = self.expr(nostruct=nostruct)
+            return N("return", e=e, line=t.line)
+        if kw in ("continue", "break"):
+            self.next()
+            if self.peek().kind == "life": raise Unsupported(f"labelled `{kw}` (line {t.line})")
+            if kw == "break" and not (self.at(";") or self.at("}") or self.at(",")):
+                raise Unsupported(f"`break` with a value (line {t.line})")
+            return N(kw, line=t.line)
+        if kw in ("unsafe", "async", "const", "let", "yield"):
             raise Unsupported(f"`{kw}` expression (line {t.line})")
         if kw == "move":
             self.next(); return self.closure()
@@ -627,7 +751,15 @@ class Parser:
             self.next(); return N("pwild")
         if self.at("&"):
             self.next(); return self.pattern()
+        if self.at("("):
+            self.next(); ps = []
+            while not self.at(")"):
+                ps.append(self.pattern())
+                if not self.eat(","): break
+            self.expect(")")
+            return N("ptuple", ps=ps)
         if t.kind == "id":
+            if t.val in ("mut", "ref"): raise Unsupported(f"`{t.val}` binding pattern (line {t.line})")
             segs = self.path()
             if self.at("(") or self.at("{") or self.at("@"):
                 raise Unsupported(f"structured pattern (line {t.line})")
@@ -646,7 +778,9 @@ class Fn:
         self.selfk = None            # None | 'ref' | 'mut' | 'val'
         self.params = []             # [(name, type string)]
         self.ret = "()"
-        self.body = None             # (start, end) token indices of `{ … }`
+        self.body = None             # (start, end) token indices of `{ … }` in self.toks
+        self.toks = None             # private copy of the body tokens
+        self.outer = None            # enclosing Fn of a nested fn item
         self.assoc = {}              # associated types of the impl
         self.order = 0
 
@@ -656,7 +790,8 @@ class Fn:
 
     @property
     def rust_name(self):
-        return f"<{self.ty} as {self.trait}>::{self.name}" if self.trait else f"{self.ty}::{self.name}"
+        amp = "&" if (self.tag or "").endswith("_ref") else ""
+        return f"<{amp}{self.ty} as {self.trait}>::{self.name}" if self.trait else f"{self.ty}::{self.name}"
 
 
 class Module:
@@ -667,15 +802,48 @@ class Module:
         self.fns = []        # [Fn]
         self.notes = []      # skipped items
         self.derives = {}    # type name -> names in #[derive(..)]
+        self.stparams = {}   # struct name -> type parameters
+        self.traits = []     # traits defined in the file (their default methods are in fns, ty = trait name)
+        self.macros = {}     # macro_rules name -> (param names, body tokens) for the single-arm `$x:frag, …` form
 
 
 def trait_tag(trait):
     return re.sub(r"_+", "_", re.sub(r"[^A-Za-z0-9]+", "_", trait)).strip("_")
 
 
-def parse_items(toks):
+def expand_macro(mod, name, args_toks, line):
+    params, body = mod.macros[name]
+    args, cur, depth = [], [], 0
+    for t in args_toks:
+        if t.kind == "p" and t.val in "([{": depth += 1
+        if t.kind == "p" and t.val in ")]}": depth -= 1
+        if t.kind == "p" and t.val == "," and depth == 0:
+            args.append(cur); cur = []
+        else:
+            cur.append(t)
+    if cur: args.append(cur)
+    if len(args) != len(params):
+        raise Unsupported(f"{name}! invoked with {len(args)} arguments, {len(params)} expected (line {line})")
+    sub = dict(zip(params, args))
+    out, i = [], 0
+    while i < len(body):
+        t = body[i]
+        if t.kind == "p" and t.val == "$" and i + 1 < len(body) and body[i + 1].kind == "id":
+            nm = body[i + 1].val
+            if nm not in sub: raise Unsupported(f"macro {name}: unknown metavariable ${nm}")
+            out += [Tok(x.kind, x.val, x.line, x.suffix) for x in sub[nm]]
+            i += 2
+            continue
+        if t.kind == "p" and t.val == "$": raise Unsupported(f"macro {name}: repetition / `$` syntax in the body")
+        out.append(Tok(t.kind, t.val, t.line, t.suffix)); i += 1
+    out.append(Tok("eof", "<eof>", line))
+    return out
+
+
+def parse_items(toks, mod=None, macros=False, depth=0):
     p = Parser(toks)
-    mod = Module()
+    mod = mod or Module()
+    if depth > 8: raise Unsupported("macro expansion too deep")
     while p.peek().kind != "eof":
         derives = p.skip_attrs()
         if p.eat(";"): continue
@@ -698,8 +866,30 @@ def parse_items(toks):
             mod.notes.append(f"mod {name}: not translated")
             continue
         if kw == "macro_rules":
-            p.next(); p.expect("!"); name = p.ident(); p.skip_balanced(); p.eat(";")
-            mod.notes.append(f"macro_rules! {name}: macros are not expanded")
+            p.next(); p.expect("!"); name = p.ident()
+            s_, e_ = p.skip_balanced(); p.eat(";")
+            if not macros:
+                mod.notes.append(f"macro_rules! {name}: macros are not expanded")
+                continue
+            # single arm `( $a:frag, $b:frag ) => { body }`
+            q = Parser(toks, s_, e_)
+            try:
+                ms, me = q.skip_balanced()
+                q.expect("=>")
+                bs, be = q.skip_balanced()
+                q.eat(";")
+                if q.i < q.end: raise Unsupported("more than one arm")
+                params, k = [], ms
+                while k < me:
+                    if not (toks[k].val == "$" and toks[k + 1].kind == "id" and toks[k + 2].val == ":" and toks[k + 3].kind == "id"):
+                        raise Unsupported("matcher is not of the form `$a:frag, $b:frag`")
+                    params.append(toks[k + 1].val); k += 4
+                    if k < me:
+                        if toks[k].val != ",": raise Unsupported("matcher is not of the form `$a:frag, $b:frag`")
+                        k += 1
+                mod.macros[name] = (params, list(toks[bs:be]))
+            except (Unsupported, IndexError) as e:
+                mod.notes.append(f"macro_rules! {name}: not expanded ({e})")
             continue
         if kw == "enum":
             p.next(); name = p.ident()
@@ -724,7 +914,11 @@ def parse_items(toks):
             continue
         if kw == "struct":
             p.next(); name = p.ident()
-            if p.at("<"): raise Unsupported(f"generic struct {name}")
+            stp = []
+            if p.at("<"):
+                stp, sb, why = p.generic_params()
+                if why or sb: raise Unsupported(f"generic struct {name}: {why or 'bounded parameters'}")
+            if p.eat("where"): raise Unsupported(f"struct {name} with where clause")
             if not p.at("{"): raise Unsupported(f"struct {name} is not a struct with named fields")
             p.expect("{")
             fields = []
@@ -738,9 +932,13 @@ def parse_items(toks):
             if name in mod.enums or name in mod.structs: raise Unsupported(f"type {name} defined twice")
             mod.structs[name] = fields
             mod.derives[name] = derives
+            mod.stparams[name] = stp
             continue
         if kw == "impl":
             parse_impl(p, mod)
+            continue
+        if kw == "trait":
+            parse_trait(p, mod)
             continue
         if kw == "fn":
             p.next(); name = p.ident()
@@ -751,10 +949,81 @@ def parse_items(toks):
         if p.peek(1).kind == "p" and p.peek(1).val == "!":     # macro invocation at item level
             name = p.ident(); p.next()
             s, e = p.skip_balanced(); p.eat(";")
+            if macros and name in mod.macros:
+                parse_items(expand_macro(mod, name, toks[s:e], t.line), mod, macros, depth + 1)
+                mod.notes.append(f"{name}!({' '.join(str(x.val) for x in toks[s:e])}): expanded")
+                continue
             mod.notes.append(f"{name}!({' '.join(str(x.val) for x in toks[s:e])}): macros are not expanded")
             continue
         raise Unsupported(f"item `{kw}` (line {t.line})")
     return mod
+
+
+def parse_fn(p, tyname, trait, assoc, itps, ibounds, generic):
+    """after the `fn` keyword: signature and (token range of the) body; None for a declaration without body"""
+    f = Fn()
+    f.ty, f.trait, f.tag, f.assoc = tyname, trait, (trait_tag(trait) if trait else None), assoc
+    f.name = p.ident()
+    f.generic = generic
+    f.tparams, f.bounds = list(itps), list(ibounds)
+    if p.at("<"):
+        tps, bs, why = p.generic_params()
+        f.tparams += tps; f.bounds += bs; f.generic = f.generic or why
+    p.expect("(")
+    while not p.at(")"):
+        if p.at("&") and (p.at("self", 1) or (p.peek(1).kind == "life" and p.at("self", 2))):
+            p.next()
+            if p.peek().kind == "life": p.next()
+            p.next(); f.selfk = "ref"
+        elif p.at("&") and p.at("mut", 1) and p.at("self", 2):
+            p.next(); p.next(); p.next(); f.selfk = "mut"
+        elif p.at("self"):
+            p.next(); f.selfk = "val"
+        elif p.at("mut") and p.at("self", 1):
+            p.next(); p.next(); f.selfk = "val"; f.generic = f.generic or "`mut self` receiver"
+        else:
+            if p.eat("mut"): f.generic = f.generic or "`mut` parameter binding"
+            nm = p.ident(); p.expect(":")
+            if p.at("&") and p.at("mut", 1):
+                f.generic = f.generic or f"`&mut` parameter {nm}"
+                p.next(); p.next()
+            f.params.append((nm, p.ty()))
+        if not p.eat(","): break
+    p.expect(")")
+    if p.eat("->"):
+        f.ret = p.ty()
+    if p.eat("where"):
+        f.bounds += p.where_clause()
+    if p.eat(";"):
+        return None
+    s_, e_ = p.skip_balanced()
+    f.toks = list(p.t[s_ - 1:e_ + 1])
+    f.body = (0, len(f.toks))
+    return f
+
+
+def parse_trait(p, mod):
+    """`trait Name<..>: Supers where .. { fn default methods }`: the provided (default) methods become functions of
+    the pseudo type `Name` whose `Self` is the implementing type"""
+    p.expect("trait"); name = p.ident()
+    tps, bounds, why = ([], [], None)
+    if p.at("<"): tps, bounds, why = p.generic_params()
+    if p.eat(":"): bounds += [("Self", b) for b in p.bound_list()]
+    if p.eat("where"): bounds += p.where_clause()
+    p.expect("{")
+    while not p.at("}"):
+        p.skip_attrs()
+        t = p.peek()
+        if p.eat("type") or p.eat("const"):
+            while not p.eat(";"): p.next()
+            continue
+        if not p.eat("fn"): raise Unsupported(f"trait item `{t.val}` (line {t.line})")
+        f = parse_fn(p, name, None, {}, ["Self"] + tps, bounds, why)
+        if f is None: continue
+        f.order = len(mod.fns); f.is_trait_default = True
+        mod.fns.append(f)
+    p.expect("}")
+    mod.traits.append(name)
 
 
 def parse_impl(p, mod):
@@ -763,12 +1032,19 @@ def parse_impl(p, mod):
     itps, ibounds = [], []
     if p.at("<"):
         itps, ibounds, generic = p.generic_params()
+    byref = p.at("&")
     first = p.ty()
     trait = None
     if p.eat("for"):
+        byref = p.at("&")
         trait, tyname = first, p.ty()
     else:
         tyname = first
+    tyname = re.sub(r"<.*>$", "", tyname)          # `Ratio<T>` → `Ratio` (the parameters are those of the impl)
+    blanket = None
+    if trait is not None and tyname in itps:        # blanket impl `impl<T> Trait for T`: `Self` is the parameter
+        blanket = tyname
+        tyname = re.sub(r"<.*>$", "", trait)
     if p.eat("where"):
         ibounds = ibounds + p.where_clause()
     p.expect("{")
@@ -777,6 +1053,7 @@ def parse_impl(p, mod):
         p.skip_attrs()
         if p.eat("pub") and p.at("("): p.skip_balanced()
         t = p.peek()
+        if p.at("const") and p.at("fn", 1): p.next()          # `const fn`
         if p.eat("const"):
             name = p.ident(); p.expect(":"); cty = p.ty(); p.expect("=")
             e = p.expr(); p.expect(";")
@@ -787,46 +1064,19 @@ def parse_impl(p, mod):
         if p.eat("type"):
             name = p.ident(); p.expect("="); assoc[name] = p.ty(); p.expect(";")
             continue
+        if p.eat("unsafe"): raise Unsupported(f"unsafe fn (line {t.line})")
         if not p.at("fn"):
             raise Unsupported(f"impl item `{t.val}` (line {t.line})")
         p.next()
-        f = Fn()
-        f.ty, f.trait, f.tag, f.assoc, f.order = tyname, trait, (trait_tag(trait) if trait else None), assoc, len(mod.fns)
-        f.name = p.ident()
-        f.generic = generic
-        f.tparams, f.bounds = list(itps), list(ibounds)
-        if p.at("<"):
-            tps, bs, why = p.generic_params()
-            f.tparams += tps; f.bounds += bs; f.generic = f.generic or why
-        p.expect("(")
-        while not p.at(")"):
-            if p.at("&") and (p.at("self", 1) or (p.peek(1).kind == "life" and p.at("self", 2))):
-                p.next()
-                if p.peek().kind == "life": p.next()
-                p.next(); f.selfk = "ref"
-            elif p.at("&") and p.at("mut", 1) and p.at("self", 2):
-                p.next(); p.next(); p.next(); f.selfk = "mut"
-            elif p.at("self"):
-                p.next(); f.selfk = "val"
-            elif p.at("mut") and p.at("self", 1):
-                p.next(); p.next(); f.selfk = "val"; f.generic = f.generic or "`mut self` receiver"
-            else:
-                if p.eat("mut"): f.generic = f.generic or "`mut` parameter binding"
-                nm = p.ident(); p.expect(":")
-                if p.at("&") and p.at("mut", 1):
-                    f.generic = f.generic or f"`&mut` parameter {nm}"
-                    p.next(); p.next()
-                f.params.append((nm, p.ty()))
-            if not p.eat(","): break
-        p.expect(")")
-        if p.eat("->"):
-            f.ret = p.ty()
-        if p.eat("where"):
-            f.bounds += p.where_clause()
-        if p.eat(";"):
-            continue
-        f.body = p.skip_balanced()
-        f.body = (f.body[0] - 1, f.body[1] + 1)
+        if blanket:
+            f = parse_fn(p, tyname, None, assoc, itps + ["Self"],
+                         ibounds + [("Self", b) for t_, b in ibounds if t_ == blanket], generic)
+            if f is not None: f.is_trait_default = True; f.blanket = blanket
+        else:
+            f = parse_fn(p, tyname, trait, assoc, itps, ibounds, generic)
+        if f is None: continue
+        f.order = len(mod.fns)
+        if byref: f.tag = (f.tag or "") + "_ref"
         mod.fns.append(f)
     p.expect("}")
 
@@ -881,14 +1131,45 @@ class Code:
         return isinstance(self.final[1], (IfTerm, Blk)) and self.final[1].monadic()
 
 
+def split_top(s):
+    """split at top-level commas (nesting by () and <>)"""
+    out, cur, d = [], "", 0
+    for ch in s:
+        if ch in "(<": d += 1
+        if ch in ")>": d -= 1
+        if ch == "," and d == 0:
+            out.append(cur); cur = ""
+        else:
+            cur += ch
+    if cur: out.append(cur)
+    return out
+
+
+ASSIGN_METHODS = {"add_assign": "+=", "sub_assign": "-=", "mul_assign": "*=", "div_assign": "/=", "rem_assign": "%="}
+OP_ASSIGN_FN = {v[:-1]: k for k, v in ASSIGN_METHODS.items()}
+# builtin methods of the scalar type Z: name -> (Lean function, number of arguments, result type)
+ZMETH = {"is_zero": ("RInt.is_zero", 0, "bool"), "is_one": ("RInt.is_one", 0, "bool"),
+         "is_unit": ("RInt.is_unit", 0, "bool"), "is_negative": ("RInt.is_negative", 0, "bool"),
+         "is_positive": ("RInt.is_positive", 0, "bool"), "normalizing_unit": ("RInt.normalizing_unit", 0, "Z"),
+         "normalized": ("RInt.normalized", 0, "Z"), "into_normalized": ("RInt.normalized", 0, "Z"),
+         "inv": ("RInt.inv", 0, "Option<Z>"), "abs": ("RInt.abs", 0, "Z"), "signum": ("RInt.signum", 0, "Z")}
+# builtin associated functions of the scalar type Z
+ZSTATIC = {"gcd": ("RInt.gcd", 2, "Z"), "lcm": ("RInt.lcm", 2, "Z"), "zero": ("0", 0, "Z"), "one": ("1", 0, "Z"),
+           "default": ("0", 0, "Z")}
+ZSTATIC_OWNERS = {"EucRing", "Ring", "Integer"}      # trait-qualified calls whose Self type is fixed by scalar arguments
+ORD = {"Less": "Ordering.lt", "Equal": "Ordering.eq", "Greater": "Ordering.gt"}
+
+
 def unpar(s):
+    """strip one pair of outer parentheses (not of a tuple `(a, b)` nor of a type ascription `(e : T)`)"""
     if isinstance(s, str) and s.startswith("(") and s.endswith(")"):
         d = 0
         for k, ch in enumerate(s):
-            if ch == "(": d += 1
-            elif ch == ")":
+            if ch in "({[": d += 1
+            elif ch in ")}]":
                 d -= 1
                 if d == 0 and k != len(s) - 1: return s
+            elif d == 1 and (ch == "," or s.startswith(" : ", k)): return s
         return s[1:-1]
     return s
 
@@ -903,8 +1184,10 @@ def mk_code(items, term):
 
 
 class Translator:
-    def __init__(self, mod, toks, allids):
+    def __init__(self, mod, toks, allids, cfg=None):
         self.mod, self.toks = mod, toks
+        self.cfg = cfg or TARGETS["bitseq"]
+        self.scalar = self.cfg["scalar"]
         self.done = {}        # Fn.key -> dict(text=.., pure=.., ret=.., aux=[..]) or Unsupported
         self.stack = []
         self.emitted = []     # keys in emission order
@@ -913,9 +1196,20 @@ class Translator:
         self.tmp = tmp
         self.types = set(mod.enums) | set(mod.structs)
         self.tvars, self.aliases, self.convs = [], {}, {}
+        self.gsig, self.gargs = "", []
+        self.gcache = {}
+        self.local_fns = {}     # key of the enclosing fn -> {name: nested Fn}
+        self.ord_glob = False   # `use …::Ordering::*` seen in the current body
+        self.uses_fuel = False
+        self.fn_mode = None     # block mode of the function body (for `return`)
+        self.loop_ctx = None    # (call head, read-only vars, state vars) of the enclosing `loop`
+        self.scope_outer = set()
 
     # -- naming / types
     def lean_ty(self, t):
+        if t == "Z": return "Int"
+        if t.startswith("(") and t != "()":
+            return "(" + " × ".join(self.lean_ty(x) for x in split_top(t[1:-1])) + ")"
         if t in INT64: return "Nat"
         if t == "bool": return "Bool"
         if t == "()": return "Unit"
@@ -931,15 +1225,30 @@ class Translator:
 
     def norm_ty(self, t, fn):
         """normalise a parsed type string in the context of fn's impl"""
+        g = self.generics_of(fn)
+        if t in g["aliases"]: return g["aliases"][t]
         if t == "Self": return fn.ty
-        if fn is self.cur or fn.key == getattr(self.cur, "key", None):
-            if t in self.aliases: return self.aliases[t]
+        if t.startswith("(") and t != "()":
+            return "(" + ",".join(self.norm_ty(x, fn) for x in split_top(t[1:-1])) + ")"
+        m = re.fullmatch(r"(\w+)<(.*)>", t)
+        if m and m.group(1) in self.mod.structs and self.mod.stparams.get(m.group(1)):
+            args = [self.norm_ty(x, fn) for x in split_top(m.group(2))]
+            if self.scalar and all(a == "Z" for a in args) and len(args) == len(self.mod.stparams[m.group(1)]):
+                return m.group(1)
+            raise Unsupported(f"type `{t}`")
         if t.startswith("Self::") and t[6:] in fn.assoc: return self.norm_ty(fn.assoc[t[6:]], fn)
         if t in ("std::cmp::Ordering", "cmp::Ordering", "core::cmp::Ordering"): return "Ordering"
         m = re.fullmatch(r"Option<(.*)>", t)
         if m: return f"Option<{self.norm_ty(m.group(1), fn)}>"
         if t in BADINT: raise Unsupported(f"type `{t}` (only the 64-bit unsigned integers are in the subset)")
-        self.lean_ty(t)
+        if t in self.mod.structs and self.mod.stparams.get(t): raise Unsupported(f"generic type `{t}` without arguments")
+        if t in g["tvars"]: return t
+        saved = self.tvars
+        self.tvars = g["tvars"]
+        try:
+            self.lean_ty(t)
+        finally:
+            self.tvars = saved
         return t
 
     @staticmethod
@@ -947,7 +1256,8 @@ class Translator:
         return name + "_" if name in LEAN_RESERVED or name.startswith("_") and name != "_" else name
 
     def lean_fn(self, f):
-        return f"{f.ty}.{f.tag}.{self.ident(f.name)}" if f.tag else f"{f.ty}.{self.ident(f.name)}"
+        nm = ".".join(self.ident(x) for x in f.name.split("."))
+        return f"{f.ty}.{f.tag}.{nm}" if f.tag else f"{f.ty}.{nm}"
 
     def find_fn(self, ty, name, argtys=None):
         c = [f for f in self.mod.fns if f.ty == ty and f.name == name and f.trait is None]
@@ -964,9 +1274,16 @@ class Translator:
         if len(c) != 1: return None
         return c[0]
 
+    def find_trait_default(self, name):
+        """default method `name` of a trait defined in this file (target files that define traits)"""
+        c = [f for f in self.mod.fns if getattr(f, "is_trait_default", False) and f.name == name]
+        return c[0] if len(c) == 1 else None
+
     @staticmethod
     def compat(a, b):
-        return a == b or (a in INT64 and b in INT64 and "int" in (a, b))
+        if a == b or "!" in (a, b) or (a in INT64 and b in INT64 and "int" in (a, b)): return True
+        if a.startswith("Option<") and b.startswith("Option<") and "Option<_>" in (a, b): return True
+        return False
 
     def join_int(self, a, b, what, line):
         if a not in INT64 or b not in INT64:
@@ -999,40 +1316,97 @@ class Translator:
 
     def translate_fn(self, f):
         if f.generic: raise Unsupported(f.generic)
-        if f.ty not in self.types: raise Unsupported(f"impl for unknown type {f.ty}")
+        if f.ty not in self.types and not getattr(f, "is_trait_default", False) and f.ty not in self.cfg.get("scalar_types", []):
+            raise Unsupported(f"impl for unknown type {f.ty}")
         self.cur, self.ntmp, self.nloop, self.aux = f, 0, 0, []
+        self.uses_fuel, self.ord_glob, self.loop_ctx = False, False, None
         self.setup_generics(f)
         ret = self.norm_ty(f.ret, f)
         env = {}     # rust name -> (lean name, type, mutable)
         params = []
-        if f.tparams and f.selfk == "mut": raise Unsupported("generic `&mut self` method")
+        if self.tvars and f.selfk == "mut": raise Unsupported("generic `&mut self` method")
         if f.selfk:
-            env["self"] = ("slf", f.ty, f.selfk == "mut")
-            params.append(("slf", self.lean_ty(f.ty)))
+            sty = self.norm_ty("Self", f)
+            env["self"] = ("slf", sty, f.selfk == "mut")
+            params.append(("slf", self.lean_ty(sty)))
         for nm, t in f.params:
             t = self.norm_ty(t, f)
             ln = self.ident(nm)
             env[nm] = (ln, t, False)
             params.append((ln, self.lean_ty(t)))
-        body = Parser(self.toks, f.body[0], f.body[1]).block()
+        body = Parser(list(f.toks), f.body[0], f.body[1]).block()
+        self.register_locals(f, body)
         if f.selfk == "mut":
             if ret != "()": raise Unsupported("`&mut self` method that also returns a value")
-            code = self.tr_block(body, env, ("vars", ["self"]))
-            lret = self.lean_ty(f.ty)
+            self.fn_mode = ("vars", ["self"])
+            code = self.tr_block(body, env, self.fn_mode)
+            lret = self.lean_ty(env["self"][1])
         else:
-            code = self.tr_block(body, env, ("value", ret))
+            self.fn_mode = ("value", ret)
+            code = self.tr_block(body, env, self.fn_mode)
             lret = self.lean_ty(ret)
-        pure = not code.monadic()
+        pure = not code.monadic() and not self.uses_fuel
+        if self.uses_fuel: params = [("fuel", "Nat")] + params
         sig = " ".join(([self.gsig] if self.gsig else []) + [f"({n} : {unpar(t)})" for n, t in params])
-        head = f"def {self.lean_fn(f)}" + (" " + sig if sig else "") + " : " + (lret if pure else f"Res {lret}") + " :="
+        head = f"def {self.lean_fn(f)}" + (" " + sig if sig else "") + " : " + (unpar(lret) if pure else f"Res {lret}") + " :="
         lines = [f"/-- `{f.rust_name}` -/", head] + self.body_lines(code, "  ", not pure)
         # the callee analysis of this function is finished: restore nothing (state is per call)
-        return dict(text="\n".join(self.aux + ["\n".join(lines)]), pure=pure, ret=ret, fn=f)
+        return dict(text="\n".join(self.aux + ["\n".join(lines)]), pure=pure, ret=ret, fn=f, fuel=self.uses_fuel)
+
+    def register_locals(self, f, body):
+        """nested fn items and `use` declarations of a function body"""
+        loc = {}
+
+        def go(n):
+            if n.kind == "block":
+                for u in getattr(n, "uses", []):
+                    if u[-2:] == ["Ordering", "*"]: self.ord_glob = True
+                for g in getattr(n, "fns", []):
+                    g.ty, g.tag, g.trait = f.ty, f.tag, f.trait
+                    g.short = g.name
+                    g.name = f"{f.name}.{g.name}"
+                    g.outer = f
+                    if getattr(f, "is_trait_default", False): g.is_trait_default = True
+                    loc[g.short] = g
+        self.walk(body, go)
+        self.local_fns[f.key] = loc
 
     def setup_generics(self, f):
-        """type parameters of f: plain type variables, `I: IntoIterator<Item = X>` (modelled as `List X`), and
-        conversion clauses `U: From<T>` for a user type U and a type variable T (an explicit function argument)"""
+        g = self.generics_of(f)
+        self.tvars, self.aliases, self.convs = g["tvars"], g["aliases"], g["convs"]
+        self.gsig, self.gargs = g["gsig"], g["gargs"]
+
+    def generics_of(self, f):
+        if id(f) not in self.gcache:
+            saved = (self.tvars, self.aliases, self.convs, self.gsig, self.gargs)
+            try:
+                self.compute_generics(f)
+                self.gcache[id(f)] = dict(tvars=self.tvars, aliases=self.aliases, convs=self.convs, gsig=self.gsig,
+                                          gargs=self.gargs, err=None)
+            except Unsupported as e:
+                self.gcache[id(f)] = dict(tvars=[], aliases={}, convs={}, gsig="", gargs=[], err=e)
+            finally:
+                self.tvars, self.aliases, self.convs, self.gsig, self.gargs = saved
+        g = self.gcache[id(f)]
+        if g["err"] is not None: raise g["err"]
+        return g
+
+    def compute_generics(self, f):
+        """type parameters of f: plain type variables, `I: IntoIterator<Item = X>` (modelled as `List X`),
+        conversion clauses `U: From<T>` for a user type U and a type variable T (an explicit function argument), and —
+        with the target option scalar = "Z" — parameters bounded by ring / integer traits only, read as `Int`"""
         self.tvars, self.aliases, self.convs = [], {}, {}
+        scal = set()
+        if self.scalar:
+            for tp in f.tparams:
+                bs = [re.sub(r"<.*$", "", b) for t, b in f.bounds if t == tp and not b.startswith("'")]
+                if all(b in SCALAR_BOUNDS for b in bs):
+                    scal.add(tp)
+        tparams = [t for t in f.tparams if t not in scal]
+        bounds = [(t, b) for t, b in f.bounds if t not in scal]
+        for tp in scal: self.aliases[tp] = "Z"
+        if getattr(f, "ty", None) in self.cfg.get("scalar_types", []): self.aliases["Self"] = "Z"
+        f = N("fnview", tparams=tparams, bounds=bounds)
         iters = {}
         for t, b in f.bounds:
             m = re.fullmatch(r"IntoIterator<Item=(\w+)>", b)
@@ -1114,7 +1488,171 @@ class Translator:
         if not ls: return "()"
         return ls[0] if len(ls) == 1 else "(" + ", ".join(ls) + ")"
 
+    def has_jump(self, n):
+        """does the node contain `return` / `continue` / `break` / `loop` (outside closures and nested fns)?"""
+        if isinstance(n, (list, tuple)): return any(self.has_jump(x) for x in n)
+        if not isinstance(n, N): return False
+        if n.kind in ("return", "continue", "break", "loop"): return True
+        if n.kind == "closure": return False
+        return any(self.has_jump(v) for k, v in n.__dict__.items() if k != "fns")
+
+    def idents(self, n, acc=None):
+        acc = set() if acc is None else acc
+        self.walk(n, lambda x: acc.update(x.segs[:1]) if x.kind == "path" else None)
+        return acc
+
+    def mode_end(self, mode):
+        """continuation at the end of a block translated in `mode`: (wants a value?, fn(items, term, type, env) -> Code)"""
+        if mode[0] == "value":
+            def k(its, term, ty, env):
+                if term is None:
+                    if mode[1] not in (None, "()"): raise Unsupported("block without a value where one is needed")
+                    self.last_ty = "()"
+                    return Code(its, ("pure", "()"))
+                if mode[1] is not None and not self.compat(mode[1], ty):
+                    raise Unsupported(f"value of type {ty} where {mode[1]} is expected")
+                self.last_ty = ty
+                return mk_code(its, term)
+            return True, k
+        if mode[0] == "vars":
+            return False, (lambda its, term, ty, env: mk_code(its, self.tup(env, mode[1])))
+        if mode[0] == "loop":
+            _, head, ro, st = mode
+            return False, (lambda its, term, ty, env: Code(its, ("m", " ".join([head] + [env[n][0] for n in ro + st]))))
+        raise AssertionError(mode)
+
+    def seq_k(self, stmts, tail, env, K, rest_ids=frozenset()):
+        """CPS translation of a statement sequence that contains jumps; K = (wants value, continuation) is applied at
+        its end.  `rest_ids`: identifiers used by the code the continuation stands for (scope check)"""
+        items = []
+        for i, st in enumerate(stmts):
+            if self.has_jump(st):
+                rs, rt = stmts[i + 1:], tail
+                ids = frozenset(self.idents(rs) | self.idents(rt)) | rest_ids
+                if st.kind == "let":
+                    def k(its, term, ty, env2, st=st):
+                        out = list(its)
+                        out += self.bind_pattern(st, [], term, ty, env2)
+                        c = self.seq_k(rs, rt, env2, K, rest_ids)
+                        return Code(out + c.items, c.final)
+                    c = self.expr_k(st.init, env, (True, k), ids)
+                else:
+                    def k(its, term, ty, env2):
+                        c = self.seq_k(rs, rt, env2, K, rest_ids)
+                        return Code(list(its) + c.items, c.final)
+                    c = self.expr_k(st.e, env, (False, k), ids)
+                return Code(items + c.items, c.final)
+            if st.kind == "let":
+                for nm in ([st.name] if st.pat is None else [x for x, _ in st.pat]):
+                    if nm != "_" and nm in rest_ids and nm in self.scope_outer:
+                        raise Unsupported(f"`let {nm}` in a branch that is followed by code using an outer `{nm}` (line {st.line})")
+            items += self.tr_stmt(st, env)
+        if tail is None:
+            c = K[1]([], None, "()", env)
+        else:
+            c = self.expr_k(tail, env, K, rest_ids)
+        return Code(items + c.items, c.final)
+
+    def expr_k(self, e, env, K, rest_ids):
+        while e.kind == "paren": e = e.e
+        line = getattr(e, "line", 0)
+        if not self.has_jump(e):
+            if K[0]:
+                if e.kind in ("assign", "while", "for") or (e.kind == "if" and e.el is None):
+                    its = self.tr_stmt(N("expr", e=e, line=line), env)
+                    return K[1](its, None, "()", env)
+                its, t, ty = self.tr(e, env)
+                return K[1](its, t, ty, env)
+            its = self.tr_stmt(N("expr", e=e, line=line), env)
+            return K[1](its, None, "()", env)
+        if e.kind == "return":
+            return self.do_return(e, env)
+        if e.kind == "continue":
+            if self.loop_ctx is None: raise Unsupported(f"`continue` outside a `loop` (line {line})")
+            head, ro, st = self.loop_ctx
+            return Code([], ("m", " ".join([head] + [env[n][0] for n in ro + st])))
+        if e.kind == "break":
+            raise Unsupported(f"`break` (line {line})")
+        if e.kind == "loop":
+            return self.tr_loop(e, env)
+        if e.kind == "block":
+            saved = self.scope_outer
+            self.scope_outer = set(env)
+            try:
+                return self.seq_k(list(e.stmts), e.tail, dict(env), K, rest_ids)
+            finally:
+                self.scope_outer = saved
+        if e.kind == "if":
+            if self.has_jump(e.c): raise Unsupported(f"jump inside an `if` condition (line {line})")
+            its, c, cty = self.tr(e.c, env)
+            if cty != "bool": raise Unsupported(f"`if` condition of type {cty} (line {line})")
+            th = self.expr_k(e.th, env, K, rest_ids)
+            if e.el is not None:
+                el = self.expr_k(e.el, env, K, rest_ids)
+            else:
+                el = K[1]([], None, "()", dict(env))
+            return Code(its, ("m" if (th.monadic() or el.monadic()) else "pure", IfTerm(c, th, el)))
+        if e.kind == "match":
+            return self.match_k(e, env, K, rest_ids)
+        raise Unsupported(f"`return`/`continue`/`loop` inside this kind of expression ({e.kind}) (line {line})")
+
+    def do_return(self, e, env):
+        mode = self.fn_mode
+        if self.loop_ctx is None and mode is None: raise Unsupported("`return` outside a function body")
+        if mode[0] == "vars":
+            if e.e is not None: raise Unsupported(f"`return` with a value in a `&mut self` method (line {e.line})")
+            return mk_code([], self.tup(env, mode[1]))
+        if e.e is None:
+            if mode[1] != "()": raise Unsupported(f"`return` without a value (line {e.line})")
+            return Code([], ("pure", "()"))
+        if self.has_jump(e.e): raise Unsupported(f"jump inside the operand of `return` (line {e.line})")
+        its, t, ty = self.tr(e.e, env)
+        if not self.compat(mode[1], ty): raise Unsupported(f"`return` of {ty} where {mode[1]} is expected (line {e.line})")
+        return mk_code(its, t)
+
+    def tr_loop(self, e, env):
+        """`loop { … }` without `break`: a fuel function whose result is the function's result; `continue` and the
+        end of the body re-enter it, `return e` leaves it"""
+        if self.fn_mode is None or self.fn_mode[0] != "value":
+            raise Unsupported(f"`loop` in a `&mut self` method (line {e.line})")
+        if self.loop_ctx is not None: raise Unsupported(f"nested `loop` (line {e.line})")
+        st = self.mutated(e.body, env)
+        used = self.used(e.body, env)
+        ro = [n for n in env if n in used and n not in st]
+        self.nloop += 1
+        fname = f"{self.lean_fn(self.cur)}_loop{self.nloop}"
+        head = " ".join([fname] + self.gargs + ["fuel"])
+        self.loop_ctx = (head, ro, st)
+        saved = self.scope_outer
+        self.scope_outer = set(env)
+        try:
+            body = self.seq_k(list(e.body.stmts), e.body.tail, dict(env), self.mode_end(("loop", head, ro, st)))
+        finally:
+            self.loop_ctx = None
+            self.scope_outer = saved
+        sig = " ".join([f"({env[n][0]} : {unpar(self.lean_ty(env[n][1]))})" for n in ro + st])
+        rty = self.lean_ty(self.fn_mode[1])
+        lines = [f"/-- the `loop` #{self.nloop} of `{self.cur.rust_name}` (fuel-bounded; state: {', '.join(st) or 'none'}) -/",
+                 f"def {fname} " + (self.gsig + " " if self.gsig else "") + "(fuel : Nat)" + (" " + sig if sig else "") + f" : Res {rty} :=",
+                 "  match fuel with", "  | 0 => Res.err", "  | fuel + 1 =>"]
+        lines += self.body_lines(body, "    ", True)
+        self.aux.append("\n".join(lines) + "\n")
+        return Code([], ("m", " ".join([fname] + self.gargs + [self.fuel_name()] + [env[n][0] for n in ro + st])))
+
+    def fuel_name(self):
+        if self.cfg["fuel_param"]:
+            self.uses_fuel = True
+            return "fuel"
+        return "loopFuel"
+
     def tr_block(self, block, env, mode):
+        if self.has_jump(block):
+            saved = self.scope_outer
+            self.scope_outer = set(env)
+            try:
+                return self.seq_k(list(block.stmts), block.tail, dict(env), self.mode_end(mode))
+            finally:
+                self.scope_outer = saved
         env = dict(env)
         items = []
         for st in block.stmts:
@@ -1157,18 +1695,17 @@ class Translator:
     def tr_stmt(self, st, env):
         items = []
         if st.kind == "let":
+            init = st.init
+            while init.kind == "paren": init = init.e
+            if getattr(st, "pat", None) is not None and init.kind == "tuple" and len(init.es) == len(st.pat):
+                # `let (a, b) = (e1, e2)`: componentwise
+                its, comps = [], []
+                for x in init.es:
+                    i2, t, ty = self.tr(x, env)
+                    its += i2; comps.append((t, ty))
+                return its + self.bind_components([(nm, m) for nm, m in st.pat], comps, env, st.line)
             its, term, ty = self.tr(st.init, env)
-            if st.ty is not None:
-                dty = self.norm_ty(st.ty, self.cur)
-                if not self.compat(dty, ty): raise Unsupported(f"`let {st.name}: {dty}` initialised with {ty} (line {st.line})")
-                ty = dty
-            if ty == "()": raise Unsupported(f"`let` of a unit value (line {st.line})")
-            if st.name == "_":
-                return its
-            ln = self.ident(st.name)
-            self.bind_or_let(items, its, term, ln)
-            env[st.name] = (ln, ty, st.mut)
-            return items
+            return self.bind_pattern(st, its, term, ty, env)
         e = st.e
         while e.kind == "paren": e = e.e
         if e.kind == "assign":
@@ -1187,11 +1724,72 @@ class Translator:
             its, term, ty = self.tr(e, env)
             return its
         if e.kind == "mcall":
+            desug = self.desugar_mut_builtin(e, env)
+            if desug is not None:
+                return self.tr_assign(desug, env)
             callee, rty = self.resolve_method(e, env)
             if callee is not None and callee.selfk == "mut":
                 return self.tr_mut_call(e, callee, env)
+        if e.kind in ("return", "continue", "break", "loop"):
+            raise Unsupported(f"`{e.kind}` in this position (line {e.line})")
         its, term, ty = self.tr(e, env)       # evaluated for its panics only
         return its
+
+    def desugar_mut_builtin(self, e, env, dry=False):
+        """`place.add_assign(x)` … on a scalar place, `place.set_zero()` / `set_one()`: as assignments"""
+        try:
+            root, field = self.place(e.recv, env)
+        except Unsupported:
+            return None
+        pty = env[root][1] if field is None else self.field_ty(env[root][1], field, e.line)
+        if pty == "Z":
+            if e.name in ASSIGN_METHODS and len(e.args) == 1:
+                return N("assign", op=ASSIGN_METHODS[e.name], l=e.recv, r=e.args[0], line=e.line)
+            if e.name in ("set_zero", "set_one") and not e.args:
+                return N("assign", op="=", l=e.recv, r=N("zlit", v=(0 if e.name == "set_zero" else 1), line=e.line), line=e.line)
+        if pty in self.types and e.name in ("set_zero", "set_one") and not e.args and self.find_fn(pty, e.name) is None:
+            ctor = self.find_fn(pty, e.name[4:], [])
+            if ctor is not None:       # num_traits default: `*self = Zero::zero()` / `One::one()`
+                return N("assign", op="=", l=e.recv, r=N("call", path=[pty, e.name[4:]], args=[], line=e.line), line=e.line)
+        return None
+
+    def bind_pattern(self, st, its, term, ty, env):
+        """items binding the pattern of the `let` statement st to the translated initialiser"""
+        items = []
+        if st.ty is not None:
+            dty = self.norm_ty(st.ty, self.cur)
+            if not self.compat(dty, ty): raise Unsupported(f"`let …: {dty}` initialised with {ty} (line {st.line})")
+            ty = dty
+        if ty == "()": raise Unsupported(f"`let` of a unit value (line {st.line})")
+        if getattr(st, "pat", None) is not None:
+            if not (ty.startswith("(") and len(split_top(ty[1:-1])) == len(st.pat)):
+                raise Unsupported(f"tuple pattern for a value of type {ty} (line {st.line})")
+            tys = split_top(ty[1:-1])
+            names = [("_" if nm == "_" else self.ident(nm)) for nm, _ in st.pat]
+            self.bind_or_let(items, its, term, "(" + ", ".join(names) + ")")
+            for (nm, m), t in zip(st.pat, tys):
+                if nm != "_": env[nm] = (self.ident(nm), t, m)
+            return items
+        if st.name == "_":
+            return list(its)
+        ln = self.ident(st.name)
+        self.bind_or_let(items, its, term, ln)
+        env[st.name] = (ln, ty, st.mut)
+        return items
+
+    def bind_components(self, pats, comps, env, line):
+        """simultaneous binding of names to already translated pure terms"""
+        names = [("_" if nm == "_" else self.ident(nm)) for nm, _ in pats]
+        live = [(n, t) for n, (t, _) in zip(names, comps) if n != "_"]
+        clash = any(re.search(r"(?<![\w.])" + re.escape(n) + r"(?![\w])", t) for n, _ in live for _, t in live)
+        if clash:
+            items = [("let", "(" + ", ".join(names) + ")", "(" + ", ".join(unpar(t) for t, _ in comps) + ")")]
+        else:
+            items = [("let", n, t) for n, t in live]
+        for (nm, m), (t, ty) in zip(pats, comps):
+            if ty == "()": raise Unsupported(f"binding of a unit value (line {line})")
+            if nm != "_": env[nm] = (self.ident(nm), ty, m)
+        return items
 
     def splice(self, code, pat, mv):
         if not code.items and code.final == ("pure", pat): return []
@@ -1217,6 +1815,25 @@ class Translator:
         return root, field
 
     def tr_assign(self, e, env):
+        lhs = e.l
+        while lhs.kind == "paren": lhs = lhs.e
+        if lhs.kind == "tuple":
+            rhs = e.r
+            while rhs.kind == "paren": rhs = rhs.e
+            if e.op != "=" or rhs.kind != "tuple" or len(rhs.es) != len(lhs.es):
+                raise Unsupported(f"tuple assignment of this form (line {e.line})")
+            pats, its, comps = [], [], []
+            for l in lhs.es:
+                root, field = self.place(l, env)
+                if field is not None: raise Unsupported(f"tuple assignment to a field (line {e.line})")
+                if root in [x for x, _ in pats]: raise Unsupported(f"`{root}` assigned twice in one tuple assignment (line {e.line})")
+                pats.append((root, True))
+            for l, x in zip(lhs.es, rhs.es):
+                i2, t, ty = self.tr(x, env)
+                if not self.compat(env[self.place(l, env)[0]][1], ty):
+                    raise Unsupported(f"tuple assignment of {ty} (line {e.line})")
+                its += i2; comps.append((t, env[self.place(l, env)[0]][1]))
+            return its + self.bind_components(pats, comps, env, e.line)
         root, field = self.place(e.l, env)
         ln, rty, _ = env[root]
         if field is not None:
@@ -1225,6 +1842,14 @@ class Translator:
         else:
             fty, cur = rty, ln
         its, term, ty = self.tr(e.r, env)
+        if e.op != "=" and fty in self.types:
+            # `x op= y` on a user type: its `OpAssign` impl (the by-value form is derived from the by-reference one)
+            callee = self.find_fn(fty, OP_ASSIGN_FN.get(e.op[:-1], "?"), [ty])
+            if callee is None or callee.selfk != "mut" or field is not None:
+                raise Unsupported(f"`{e.op}` on {fty} (line {e.line})")
+            info = self.translate_callee(callee)
+            call = " ".join([self.lean_fn(callee)] + self.fuel_arg(info) + [ln, term])
+            return its + [("let" if info["pure"] else "bind", ln, call)]
         if e.op != "=":
             its2, term, ty = self.binop(e.op[:-1], cur, fty, term, ty, e.line)
             its = its + its2
@@ -1244,6 +1869,9 @@ class Translator:
         for f, t in self.mod.structs[sty]:
             if f == field:
                 if t in BADINT: raise Unsupported(f"field {field}: type {t}")
+                if t in self.mod.stparams.get(sty, []):
+                    if self.scalar: return "Z"
+                    raise Unsupported(f"field {field} of generic type {t}")
                 return t
         raise Unsupported(f"unknown field `.{field}` (line {line})")
 
@@ -1260,6 +1888,7 @@ class Translator:
         return its + [("bind" if t.monadic() else "let", pat, t)]
 
     def tr_while(self, e, env):
+        if self.has_jump(e): raise Unsupported(f"`return`/`continue`/`break` inside a `while` loop (line {e.line})")
         st = self.mutated(e.body, env)
         used = self.used(e, env)
         ro = [n for n in env if n in used and n not in st]
@@ -1279,10 +1908,11 @@ class Translator:
                  "  match fuel with", "  | 0 => Res.err", "  | fuel + 1 =>"]
         lines += self.body_lines(code, "    ", True)
         self.aux.append("\n".join(lines) + "\n")
-        call = " ".join([fname] + self.gargs + ["loopFuel"] + [env[n][0] for n in ro + st])
+        call = " ".join([fname] + self.gargs + [self.fuel_name()] + [env[n][0] for n in ro + st])
         return [("bind", pat if st else "_", call)]
 
     def tr_for(self, e, env):
+        if self.has_jump(e): raise Unsupported(f"`return`/`continue`/`break` inside a `for` loop (line {e.line})")
         its, it, ity = self.tr(e.it, env)
         m = re.fullmatch(r"List<(.*)>", ity)
         if not m: raise Unsupported(f"`for` over a value of type {ity} (line {e.line})")
@@ -1314,15 +1944,17 @@ class Translator:
         info = self.translate_callee(callee)
         its, args = self.tr_args(e.args, callee, env, e.line)
         ln = env[root][0]
-        call = " ".join([self.lean_fn(callee), ln] + args)
+        call = " ".join([self.lean_fn(callee)] + self.fuel_arg(info) + [ln] + args)
         return its + [("let" if info["pure"] else "bind", ln, call)]
 
     def translate_callee(self, callee):
-        saved = (self.cur, self.ntmp, self.nloop, self.aux, self.tvars, self.aliases, self.convs, self.gsig, self.gargs)
+        saved = (self.cur, self.ntmp, self.nloop, self.aux, self.tvars, self.aliases, self.convs, self.gsig, self.gargs,
+                 self.uses_fuel, self.ord_glob, self.fn_mode, self.loop_ctx)
         try:
             return self.translate(callee)
         finally:
-            self.cur, self.ntmp, self.nloop, self.aux, self.tvars, self.aliases, self.convs, self.gsig, self.gargs = saved
+            (self.cur, self.ntmp, self.nloop, self.aux, self.tvars, self.aliases, self.convs, self.gsig, self.gargs,
+             self.uses_fuel, self.ord_glob, self.fn_mode, self.loop_ctx) = saved
 
     # -- variable analysis
     def walk(self, n, fn):
@@ -1346,7 +1978,8 @@ class Translator:
                 loc = set(local)
                 for s in n.stmts:
                     if s.kind == "let":
-                        go(s.init, loc); loc.add(s.name)
+                        go(s.init, loc)
+                        loc.update([s.name] if getattr(s, "pat", None) is None else [x for x, _ in s.pat])
                     else:
                         go(s.e, loc)
                 go(n.tail, loc)
@@ -1355,13 +1988,22 @@ class Translator:
                 go(n.it, local); go(n.body, set(local) | {n.var})
                 return
             if n.kind == "assign":
-                try:
-                    root, _ = self.place(n.l, {k: (k, None, True) for k in list(env) + list(local)})
-                except Unsupported:
-                    root = None
-                if root is not None and root not in local and root in env: found.add(root)
+                l = n.l
+                while l.kind == "paren": l = l.e
+                for x in (l.es if l.kind == "tuple" else [l]):
+                    try:
+                        root, _ = self.place(x, {k: (k, None, True) for k in list(env) + list(local)})
+                    except Unsupported:
+                        root = None
+                    if root is not None and root not in local and root in env: found.add(root)
                 go(n.r, local)
                 return
+            if n.kind == "mcall" and (n.name in ASSIGN_METHODS or n.name in ("set_zero", "set_one")):
+                try:
+                    root, _ = self.place(n.recv, {k: (k, None, True) for k in list(env) + list(local)})
+                except Unsupported:
+                    root = None
+                if root is not None and root not in local and root in env and env[root][2]: found.add(root)
             if n.kind == "mcall":
                 r = n.recv
                 while r.kind == "paren": r = r.e
@@ -1397,15 +2039,27 @@ class Translator:
     def call_user(self, callee, recv, args, env, line):
         if callee.selfk == "mut":
             raise Unsupported(f"`&mut self` method {callee.rust_name} used inside an expression (line {line})")
-        if callee.tparams: raise Unsupported(f"call of the generic function {callee.rust_name} (line {line})")
+        cg = self.generics_of(callee)
+        if cg["tvars"] or cg["convs"]: raise Unsupported(f"call of the generic function {callee.rust_name} (line {line})")
         info = self.translate_callee(callee)
         its, a = self.tr_args(args, callee, env, line)
-        call = " ".join([self.lean_fn(callee)] + ([recv] if recv is not None else []) + a)
+        call = " ".join([self.lean_fn(callee)] + self.fuel_arg(info) + ([recv] if recv is not None else []) + a)
         ret = info["ret"]
         if info["pure"]:
             return its, (f"({call})" if (a or recv is not None) else call), ret
         r = self.fresh()
         return its + [("bind", r, call)], r, ret
+
+    def outer_key(self):
+        f = self.cur
+        while getattr(f, "outer", None) is not None: f = f.outer
+        return f.key
+
+    def fuel_arg(self, info):
+        if info.get("fuel"):
+            self.uses_fuel = True
+            return ["fuel"]
+        return []
 
     def resolve_method(self, e, env):
         """user method a method call refers to, or None (builtin)"""
@@ -1434,6 +2088,17 @@ class Translator:
             return [], ("true" if e.v else "false"), "bool"
         if k == "unit":
             return [], "()", "()"
+        if k == "zlit":
+            return [], str(e.v), "Z"
+        if k == "tuple":
+            its, ts, tys = [], [], []
+            for x in e.es:
+                i2, t, ty = self.tr(x, env)
+                if ty in ("()", "!"): raise Unsupported(f"tuple component of type {ty} (line {line})")
+                its += i2; ts.append(unpar(t)); tys.append(ty)
+            return its, "(" + ", ".join(ts) + ")", "(" + ",".join(tys) + ")"
+        if k in ("return", "continue", "break", "loop"):
+            raise Unsupported(f"`{k}` in this position (line {line})")
         if k == "path":
             return self.tr_path(e, env)
         if k == "field":
@@ -1446,7 +2111,16 @@ class Translator:
                 if ty == "bool": return its, f"(!{t})", ty
                 if ty in INT64: return its, f"(U64.not {t})", ty
                 raise Unsupported(f"`!` on {ty} (line {line})")
-            raise Unsupported(f"unary `{e.op}` (line {line})")
+            if e.op == "-" and ty == "Z":
+                return its, f"(-{t})", ty
+            if e.op == "-" and ty in self.types:
+                c = [f for f in self.mod.fns if f.ty == ty and f.name == "neg" and f.trait == "Neg"]
+                byref = e.e.kind == "un" and e.e.op == "&" or (e.e.kind == "path" and e.e.segs == ["self"] and self.cur.selfk == "ref")
+                c = [f for f in c if (f.tag or "").endswith("_ref") == bool(byref)] or c
+                if len(c) == 1:
+                    i2, t2, ty2 = self.call_user(c[0], t, [], env, line)
+                    return its + i2, t2, ty2
+            raise Unsupported(f"unary `{e.op}` on {ty} (line {line})")
         if k == "cast":
             its, t, ty = self.tr(e.e, env)
             if ty == "int" and not re.fullmatch(r"\d+", t):
@@ -1486,7 +2160,11 @@ class Translator:
             if segs[0] in env:
                 ln, ty, _ = env[segs[0]]
                 return [], ln, ty
+            if segs[0] == "None": return [], "none", "Option<_>"
+            if self.variant_of(segs, "Ordering"): return [], self.variant_of(segs, "Ordering"), "Ordering"
             raise Unsupported(f"unknown name `{segs[0]}` (line {line})")
+        if segs[-1] in ORD and len(segs) >= 2 and segs[-2] == "Ordering":
+            return [], ORD[segs[-1]], "Ordering"
         if len(segs) == 2:
             a, b = segs
             if a == "Self": a = self.cur.ty
@@ -1501,6 +2179,16 @@ class Translator:
 
     def binop(self, op, a, ta, b, tb, line):
         """items, term, type of `a op b` for already translated pure operands"""
+        if "Z" in (ta, tb):
+            if ta != tb: raise Unsupported(f"`{op}` on {ta}, {tb} (line {line})")
+            if op in ("+", "-", "*"): return [], f"({a} {op} {b})", "Z"
+            if op in ("/", "%"):
+                r = self.fresh()
+                return [("bind", r, f"RInt.{'div' if op == '/' else 'rem'} {a} {b}")], r, "Z"
+            if op in CMPOPS:
+                sym = {"==": "=", "!=": "≠", "<": "<", ">": ">", "<=": "≤", ">=": "≥"}[op]
+                return [], f"(decide ({a} {sym} {b}))", "bool"
+            raise Unsupported(f"`{op}` on the ring elements (line {line})")
         if op in ("+", "-", "*", "/", "%"):
             ty = self.join_int(ta, tb, op, line)
             r = self.fresh()
@@ -1569,50 +2257,129 @@ class Translator:
         r = self.fresh()
         return its + [("bind" if t.monadic() else "let", r, t)], r, ty
 
-    def tr_match(self, e, env):
+    # -- match: patterns become conditions of an if-chain
+    def scrutinee(self, e, env):
+        """translated scrutinee as a tree: ('leaf', atomic term, type) | ('tuple', [trees])"""
+        x = e
+        while x.kind == "paren": x = x.e
+        if x.kind == "tuple":
+            its, subs = [], []
+            for c in x.es:
+                i2, t = self.scrutinee(c, env)
+                its += i2; subs.append(t)
+            return its, ("tuple", subs)
+        its, s_, sty = self.tr(x, env)
+        if not re.fullmatch(r"[\w.]+", s_):
+            r = self.fresh(); its = its + [("let", r, s_)]; s_ = r
+        if sty.startswith("(") and sty != "()":
+            raise Unsupported(f"`match` on a tuple-valued expression that is not a tuple literal (line {e.line})")
+        return its, ("leaf", s_, sty)
+
+    def tree_ty(self, t):
+        return t[2] if t[0] == "leaf" else "(" + ",".join(self.tree_ty(x) for x in t[1]) + ")"
+
+    def tree_term(self, t):
+        return t[1] if t[0] == "leaf" else "(" + ", ".join(self.tree_term(x) for x in t[1]) + ")"
+
+    def variant_of(self, segs, sty):
+        """Lean constructor a path pattern / expression denotes for a value of type sty, or None"""
+        if sty == "Ordering" and segs[-1] in ORD:
+            if (len(segs) == 1 and self.ord_glob) or (len(segs) >= 2 and segs[-2] == "Ordering"):
+                return ORD[segs[-1]]
+        if sty in self.mod.enums and len(segs) == 2:
+            a = self.cur.ty if segs[0] == "Self" else segs[0]
+            if a == sty and segs[1] in [v for v, _ in self.mod.enums[a]]: return f"{a}.{segs[1]}"
+        return None
+
+    def pat_cond(self, p, tree, line):
+        """(conditions (list of Lean propositions, [] = always), bindings {name: (term, type)})"""
+        if p.kind == "pwild": return [], {}
+        if p.kind == "ptuple":
+            if tree[0] != "tuple" or len(tree[1]) != len(p.ps): raise Unsupported(f"tuple pattern (line {line})")
+            conds, binds = [], {}
+            for q, t in zip(p.ps, tree[1]):
+                c, b = self.pat_cond(q, t, line)
+                conds += c; binds.update(b)
+            return conds, binds
+        if p.kind == "ppath" and len(p.segs) == 1 and self.variant_of(p.segs, self.tree_ty(tree)) is None \
+                and p.segs[0][0].islower():
+            return [], {p.segs[0]: (self.tree_term(tree), self.tree_ty(tree))}      # binding pattern
+        if tree[0] != "leaf": raise Unsupported(f"pattern for a tuple scrutinee (line {line})")
+        s_, sty = tree[1], tree[2]
+        if p.kind == "pint":
+            if sty not in INT64: raise Unsupported(f"integer pattern on {sty} (line {line})")
+            return [f"{s_} = {p.v}"], {}
+        if p.kind == "pbool":
+            if sty != "bool": raise Unsupported(f"bool pattern on {sty} (line {line})")
+            return [f"{s_} = {'true' if p.v else 'false'}"], {}
+        v = self.variant_of(p.segs, sty)
+        if v is None: raise Unsupported(f"pattern `{'::'.join(p.segs)}` on {sty} (line {line})")
+        return [f"{s_} = {v}"], {}
+
+    def domain(self, ty):
+        if ty == "bool": return ["true", "false"]
+        if ty == "Ordering": return list(ORD.values())
+        if ty in self.mod.enums: return [f"{ty}.{v}" for v, _ in self.mod.enums[ty]]
+        if ty.startswith("(") and ty != "()":
+            ds = [self.domain(x) for x in split_top(ty[1:-1])]
+            if any(d is None for d in ds): return None
+            out = [[]]
+            for d in ds: out = [o + [v] for o in out for v in d]
+            return [tuple(o) for o in out]
+        return None
+
+    def pat_matches(self, p, val, ty):
+        if p.kind == "pwild": return True
+        if p.kind == "ptuple":
+            return all(self.pat_matches(q, v, t) for q, v, t in zip(p.ps, val, split_top(ty[1:-1])))
+        if p.kind == "pbool": return val == ("true" if p.v else "false")
+        if p.kind == "ppath":
+            v = self.variant_of(p.segs, ty)
+            return True if v is None else v == val
+        return False
+
+    def match_arms(self, e, env):
+        """[(condition string or None for `always`, env of the arm, body)], scrutinee items; checks exhaustiveness"""
         line = e.line
-        its, s, sty = self.tr(e.s, env)
-        if self.mutated(e, env): raise Unsupported(f"`match` whose arms assign variables (line {line})")
-        if not re.fullmatch(r"[\w.]+", s):
-            r = self.fresh(); its = its + [("let", r, s)]; s = r
+        its, tree = self.scrutinee(e.s, env)
+        sty = self.tree_ty(tree)
         arms = []
         for pats, body in e.arms:
-            conds = []
+            alts, binds = [], {}
             for p in pats:
-                if p.kind == "pwild": conds = None; break
-                if p.kind == "pint":
-                    if sty not in INT64: raise Unsupported(f"integer pattern on {sty} (line {line})")
-                    conds.append(f"{s} = {p.v}")
-                elif p.kind == "pbool":
-                    if sty != "bool": raise Unsupported(f"bool pattern on {sty} (line {line})")
-                    conds.append(f"{s} = {'true' if p.v else 'false'}")
-                else:
-                    segs = p.segs
-                    a = self.cur.ty if segs[0] == "Self" else segs[0]
-                    if len(segs) == 2 and a == sty and sty in self.mod.enums and segs[1] in [v for v, _ in self.mod.enums[a]]:
-                        conds.append(f"{s} = {a}.{segs[1]}")
-                    else:
-                        raise Unsupported(f"pattern `{'::'.join(segs)}` (binding patterns are not in the subset) (line {line})")
-            code = self.tr_block(N("block", stmts=[], tail=body), env, ("value", None))
-            arms.append((conds, code, self.last_ty))
-            if conds is None: break
+                c, b = self.pat_cond(p, tree, line)
+                if b and len(pats) > 1: raise Unsupported(f"binding inside an or-pattern (line {line})")
+                alts.append(c); binds = b
+            always = any(not c for c in alts)
+            cond = None if always else " ∨ ".join(" ∧ ".join(c) for c in alts)
+            env2 = dict(env)
+            for nm, (t, ty) in binds.items(): env2[nm] = (t, ty, False)
+            arms.append((cond, env2, body))
+            if always: break
+        if arms[-1][0] is not None:
+            dom = self.domain(sty)
+            if dom is None: raise Unsupported(f"`match` on {sty} without a catch-all arm (line {line})")
+            for v in dom:
+                if not any(any(self.pat_matches(p, v, sty) for p in pats) for pats, _ in e.arms):
+                    raise Unsupported(f"non-exhaustive `match` (line {line})")
+        return its, arms
+
+    def tr_match(self, e, env):
+        line = e.line
+        if self.mutated(e, env): raise Unsupported(f"`match` whose arms assign variables (line {line})")
+        its, arms0 = self.match_arms(e, env)
+        arms = []
+        for cond, env2, body in arms0:
+            code = self.tr_block(N("block", stmts=[], tail=body), env2, ("value", None))
+            arms.append((cond, code, self.last_ty))
         tys = [t for _, _, t in arms if t != "!"]
         ty = tys[0] if tys else "!"
         for t in tys:
             if not self.compat(t, ty): raise Unsupported(f"`match` arms of types {ty} and {t} (line {line})")
-            if ty == "int": ty = t
-        # exhaustiveness: a wildcard arm, or all variants of the enum / both booleans
-        if arms[-1][0] is None:
-            chain = arms[-1][1]; rest = arms[:-1]
-        else:
-            allc = [c for cs, _, _ in arms for c in cs]
-            if sty in self.mod.enums: need = [f"{s} = {sty}.{v}" for v, _ in self.mod.enums[sty]]
-            elif sty == "bool": need = [f"{s} = true", f"{s} = false"]
-            else: raise Unsupported(f"`match` on {sty} without a wildcard arm (line {line})")
-            if any(nc not in allc for nc in need): raise Unsupported(f"non-exhaustive `match` (line {line})")
-            chain = arms[-1][1]; rest = arms[:-1]
-        for conds, code, _ in reversed(rest):
-            c = "decide (" + " ∨ ".join(conds) + ")"
+            if ty == "int" or ty == "Option<_>": ty = t
+        chain = arms[-1][1]
+        for cond, code, _ in reversed(arms[:-1]):
+            c = "decide (" + cond + ")"
             chain = Code([], ("m" if (code.monadic() or chain.monadic()) else "pure", IfTerm(c, code, chain)))
         if not chain.items and isinstance(chain.final[1], IfTerm):
             t = chain.final[1]
@@ -1621,6 +2388,15 @@ class Translator:
         if self.simple(chain): return its, chain.final[1], ty
         r = self.fresh()
         return its + [("bind" if chain.monadic() else "let", r, Blk(chain))], r, ty
+
+    def match_k(self, e, env, K, rest_ids):
+        if self.has_jump(e.s): raise Unsupported(f"jump inside a `match` scrutinee (line {e.line})")
+        its, arms = self.match_arms(e, env)
+        codes = [(cond, self.expr_k(body, env2, K, rest_ids)) for cond, env2, body in arms]
+        chain = codes[-1][1]
+        for cond, code in reversed(codes[:-1]):
+            chain = Code([], ("m" if (code.monadic() or chain.monadic()) else "pure", IfTerm("decide (" + cond + ")", code, chain)))
+        return Code(its + chain.items, chain.final)
 
     def tr_struct(self, e, env):
         name = self.cur.ty if e.path == ["Self"] else "::".join(e.path)
@@ -1659,6 +2435,28 @@ class Translator:
         if segs == ["Some"] and len(e.args) == 1:
             its, t, ty = self.tr(e.args[0], env)
             return its, f"(some {t})", f"Option<{ty}>"
+        if len(segs) == 1 and segs[0] in self.local_fns.get(self.outer_key(), {}):
+            return self.call_user(self.local_fns[self.outer_key()][segs[0]], None, e.args, env, line)
+        if len(segs) == 2 and self.scalar:
+            owner = segs[0]
+            isz = self.aliases.get(owner) == "Z" or \
+                (owner in ZSTATIC_OWNERS and owner not in self.types and len(e.args) > 0)
+            if isz:
+                c = self.find_trait_default(segs[1])
+                if c is not None:
+                    if c.selfk:
+                        i1, recv, rty = self.tr(e.args[0], env)
+                        i2, t, ty = self.call_user(c, recv, e.args[1:], env, line)
+                        return i1 + i2, t, ty
+                    return self.call_user(c, None, e.args, env, line)
+                if segs[1] in ZSTATIC and len(e.args) == ZSTATIC[segs[1]][1]:
+                    fn_, _, rty = ZSTATIC[segs[1]]
+                    its, ts = [], []
+                    for x in e.args:
+                        i2, t, ty = self.tr(x, env)
+                        if ty != "Z": raise Unsupported(f"argument of type {ty} for `{owner}::{segs[1]}` (line {line})")
+                        its += i2; ts.append(t)
+                    return its, (f"({fn_} {' '.join(ts)})" if ts else fn_), rty
         if len(segs) == 2:
             a = self.cur.ty if segs[0] == "Self" else segs[0]
             if a in self.types:
@@ -1688,6 +2486,29 @@ class Translator:
             if c.selfk is None: raise Unsupported(f"`.{name}` is not a method (line {line})")
             i2, t, ty = self.call_user(c, recv, e.args, env, line)
             return i1 + i2, t, ty
+        if rty == "Z":
+            c = None
+            if self.cur.ty in self.cfg.get("scalar_types", []):      # sibling method of the same integer impl
+                sib = [f for f in self.mod.fns if f.ty == self.cur.ty and f.name == name and f.selfk]
+                if len(sib) == 1: c = sib[0]
+            c = c or self.find_trait_default(name)
+            if c is not None and c.selfk:
+                i2, t, ty = self.call_user(c, recv, e.args, env, line)
+                return i1 + i2, t, ty
+            if name == "clone" and not e.args: return i1, recv, rty
+            if name == "cmp" and len(e.args) == 1:
+                i2, b, tb = self.tr(e.args[0], env)
+                if tb != "Z": raise Unsupported(f"`.cmp` with an argument of type {tb} (line {line})")
+                return i1 + i2, f"(compare {recv} {b})", "Ordering"
+            if name in ZMETH and len(e.args) == ZMETH[name][1]:
+                return i1, f"({ZMETH[name][0]} {recv})", ZMETH[name][2]
+        if rty.startswith("Option<") and name == "unwrap" and not e.args:
+            r = self.fresh()
+            inner = rty[7:-1]
+            if inner == "_": raise Unsupported(f"`.unwrap()` on a value of unknown option type (line {line})")
+            return i1 + [("bind", r, f"Opt.unwrap {recv}")], r, inner
+        if rty == "Ordering" and name == "reverse" and not e.args:
+            return i1, f"(Ordering.swap {recv})", "Ordering"
         if rty in INT64:
             if name == "reverse_bits" and not e.args:
                 return i1, f"(U64.reverse_bits {recv})", rty
@@ -1719,11 +2540,16 @@ class Translator:
 
 # ------------------------------------------------------------------------------------------------ driver
 
-def generate(src_text, src_label):
-    toks = tokenize(src_text)
-    allids = {t.val for t in toks if t.kind == "id"}
-    mod = parse_items(toks)
-    tr = Translator(mod, toks, allids)
+def generate(src_text, src_label, target="bitseq"):
+    cfg = TARGETS[target]
+    REQUIRED = cfg["required"]
+    texts = src_text if isinstance(src_text, list) else [src_text]
+    toks, allids, mod = None, set(), None
+    for text in texts:
+        toks = tokenize(text)
+        allids |= {t.val for t in toks if t.kind == "id"}
+        mod = parse_items(toks, mod, cfg["macros"])
+    tr = Translator(mod, toks, allids, cfg)
     parts = []
     # enums
     for name in sorted(mod.enums):
@@ -1740,7 +2566,8 @@ def generate(src_text, src_label):
         lines = [f"/-- `struct {name}` -/", f"structure {name}S where"]
         for f, t in fs:
             if t in BADINT: raise Unsupported(f"struct {name}: field {f} of type {t}")
-            lines.append(f"  {f} : {tr.lean_ty(t)}   -- {t}")
+            lt = tr.lean_ty("Z") if (t in mod.stparams.get(name, []) and tr.scalar) else tr.lean_ty(t)
+            lines.append(f"  {f} : {lt}   -- {t}")
         lines.append("deriving DecidableEq, Repr, Inhabited")
         parts.append("\n".join(lines))
     for (ty, name) in sorted(mod.consts):
@@ -1771,19 +2598,15 @@ def generate(src_text, src_label):
         raise Unsupported(f"required function {k[0]}::{k[2]}" + (f" (impl {k[1]})" if k[1] else "") + " not found in the source")
     fparts = [tr.done[k]["text"] for k in tr.emitted]
     translated = [tr.done[k]["fn"] for k in tr.emitted]
-    hdr = ["import Yuiv.Model.Res", "import Yuiv.Model.RustArith", "/-",
+    hdr = [f"import {m}" for m in cfg["imports"]] + ["/-",
            f"GENERATED by tools/rs2lean_fn.py from {src_label} on every ./check run — do not edit.",
-           "",
-           "One Lean definition per translated Rust function (semantics of the primitive operators: Yuiv/Model/RustArith.lean;",
-           "`u64`/`usize` are `Nat` below 2^64, `&mut self` methods return the new struct, panics are `Res.panic`).",
-           "`Yuiv/Props/C17Gen.lean` proves each of them equal to the hand-written model `Yuiv/Model/C17.lean`.",
-           "", "translated:"]
+           ""] + cfg["blurb"] + ["", "translated:"]
     hdr += [f"  {f.rust_name}  ->  {tr.lean_fn(f)}" for f in sorted(translated, key=lambda f: tr.lean_fn(f))]
     hdr += ["", "not translated:"]
     hdr += [f"  {f.rust_name}: {reason_clean(r, f)}" for f, r in sorted(skipped, key=lambda x: tr.lean_fn(x[0]))]
     hdr += [f"  {n}" for n in sorted(set(mod.notes))]
-    hdr += ["-/", "set_option linter.unusedVariables false", "namespace Yuiv.GenBitSeq", "open Yuiv Yuiv.Rust", "", ""]
-    return "\n".join(hdr) + "\n\n".join(parts + fparts) + "\n\nend Yuiv.GenBitSeq\n"
+    hdr += ["-/", "set_option linter.unusedVariables false", f"namespace {cfg['ns']}", "open Yuiv Yuiv.Rust", "", ""]
+    return "\n".join(hdr) + "\n\n".join(parts + fparts) + f"\n\nend {cfg['ns']}\n"
 
 
 def reason_clean(r, f):
@@ -1792,28 +2615,57 @@ def reason_clean(r, f):
     return r[len(pre):] if r.startswith(pre) else r
 
 
-def main():
-    ap = argparse.ArgumentParser()
-    ap.add_argument("--src", default=SRC)
-    ap.add_argument("--out", default=OUT)
-    a, _ = ap.parse_known_args()
-    label = "/repo/yui/src/misc/bitseq.rs" if os.path.abspath(a.src) == SRC else os.path.basename(a.src)
+def run_target(target, src, out):
+    cfg = TARGETS[target]
+    dflt = cfg["src"] if isinstance(cfg["src"], list) else [cfg["src"]]
+    srcs = list(src) if src else dflt
+    if len(srcs) != len(dflt):
+        print(f"rs2lean_fn: cannot translate: fn:{target} reads {len(dflt)} source file(s): {', '.join(dflt)}")
+        return 1
+    out = out or os.path.join(GEN, cfg["out"])
+    label = " + ".join(d if os.path.abspath(x) == d else os.path.basename(x) for x, d in zip(srcs, dflt))
     try:
-        text = generate(open(a.src).read(), label)
+        texts = [open(x).read() for x in srcs]
+        text = generate(texts if len(texts) > 1 else texts[0], label, target)
     except (Unsupported, OSError, RecursionError) as e:
         print(f"rs2lean_fn: cannot translate: {e}")
-        sys.exit(1)
+        return 1
     except Exception as e:      # a bug of the translator must not look like a successful run
         print(f"rs2lean_fn: cannot translate: internal error {type(e).__name__}: {e}")
-        sys.exit(1)
-    os.makedirs(os.path.dirname(os.path.abspath(a.out)), exist_ok=True)
-    old = open(a.out).read() if os.path.exists(a.out) else None
+        return 1
+    os.makedirs(os.path.dirname(os.path.abspath(out)), exist_ok=True)
+    old = open(out).read() if os.path.exists(out) else None
     if old != text:
-        with open(a.out, "w") as f:
+        with open(out, "w") as f:
             f.write(text)
-        print("rs2lean_fn: regenerated", a.out)
+        print("rs2lean_fn: regenerated", out)
     else:
-        print("rs2lean_fn: up to date", os.path.basename(a.out))
+        print("rs2lean_fn: up to date", os.path.basename(out))
+    return 0
+
+
+def main():
+    ap = argparse.ArgumentParser()
+    ap.add_argument("targets", nargs="*", help="fn:bitseq, fn:ratio, …; none = all")
+    ap.add_argument("--src", action="append", default=None,
+                    help="alternative source file (repeat once per source file of the target, in its order)")
+    ap.add_argument("--out", default=None)
+    a = ap.parse_args()
+    names = []
+    for t in a.targets:
+        n = t[3:] if t.startswith("fn:") else t
+        if n not in TARGETS:
+            print(f"rs2lean_fn: cannot translate: unknown target {t} (known: {', '.join('fn:' + k for k in TARGETS)})")
+            sys.exit(1)
+        names.append(n)
+    names = names or list(TARGETS)
+    if (a.src or a.out) and len(names) != 1:
+        print("rs2lean_fn: cannot translate: --src/--out need exactly one target")
+        sys.exit(1)
+    rc = 0
+    for n in names:
+        rc |= run_target(n, a.src, a.out)
+    sys.exit(rc)
 
 
 if __name__ == "__main__":
